@@ -42,14 +42,14 @@ class O:
     """One proof obligation: a harness function of a harness TU, with its bounds."""
     def __init__(self, name, tu, fn, unwind=2, unwindset=None, backend='sat', defs=(), cdefs=(), replace=None,
                  nsw=False, tiers='qt', timeout=None, flags=(), bound='', desc='', no_checks=False,
-                 usingz=False, known=None, object_bits=12, replay_sanitize=False, depth=None, olevel='O0', crosscheck=False, lift=(), expect_from=None, kind='cbmc', allow_globals=(), no_free=False):
+                 usingz=False, known=None, object_bits=12, replay_sanitize=False, depth=None, olevel='O0', crosscheck=False, lift=(), expect_from=None, kind='cbmc', allow_globals=(), no_free=False, scan_struct=None, allow_writers=()):
         self.name = name; self.tu = tu; self.fn = fn; self.unwind = unwind; self.unwindset = unwindset or []
         self.backend = backend if isinstance(backend, (list, tuple)) else [backend]
         self.defs = tuple(defs) + (('USINGZ',) if usingz else ()); self.cdefs = tuple(cdefs)
         self.replace = dict(replace or {}); self.nsw = nsw; self.tiers = tiers
         self.timeout = timeout; self.flags = list(flags); self.bound = bound; self.desc = desc
         self.no_checks = no_checks; self.known = known; self.object_bits = object_bits
-        self.replay_sanitize = replay_sanitize; self.depth = depth; self.olevel = olevel; self.crosscheck = crosscheck; self.lift = tuple(lift); self.expect_from = expect_from; self.kind = kind; self.allow_globals = tuple(allow_globals); self.no_free = no_free
+        self.replay_sanitize = replay_sanitize; self.depth = depth; self.olevel = olevel; self.crosscheck = crosscheck; self.lift = tuple(lift); self.expect_from = expect_from; self.kind = kind; self.allow_globals = tuple(allow_globals); self.no_free = no_free; self.scan_struct = scan_struct; self.allow_writers = tuple(allow_writers)
     def variant(self):
         h = hashlib.sha1(repr((self.defs, sorted(self.replace.items()), self.nsw, self.olevel, self.lift, self.no_free)).encode()).hexdigest()[:8]
         return '%s-%s' % (os.path.splitext(self.tu)[0], h)
@@ -406,8 +406,63 @@ def run_irscan(o, tier, outdir):
     rec['_info'] = info
     return rec
 
+def run_structscan(o, tier, outdir):
+    """C14/C12 support: syntactic scan of the un-optimised LLVM IR of the real code for WRITES to objects of one struct type
+    (o.scan_struct, e.g. struct.Clipper2Lib::Vertex): stores through a field address (or a nested field address), memcpy/memset
+    with such an address as destination, whole-struct stores, and field addresses (other than field 0 handed on as a const
+    reference) passed to calls. Every function doing so must be on o.allow_writers (demangled-name prefixes): the functions
+    that build the objects. Anything else writes to data that may be shared (ReuseableDataContainer64)."""
+    info = build_variant(o)
+    text = open(info['ll']).read()
+    st = o.scan_struct
+    tyre = re.escape('%"' + st + '"')
+    writers = {}
+    cur = None; fieldptr = {}; structptr = set()
+    for line in text.split('\n'):
+        mm = re.match(r'^define [^@]*@("(?:[^"\\]|\\.)*"|[-a-zA-Z$._0-9]+)\(', line)
+        if mm: cur = mm.group(1).strip('"'); fieldptr = {}; structptr = set(); continue
+        if line == '}': cur = None; continue
+        if cur is None: continue
+        s_ = line.strip()
+        m = re.match(r'(%[-a-zA-Z$._0-9]+) = getelementptr inbounds ' + tyre + r', ' + tyre + r'\* (%[-a-zA-Z$._0-9]+), i32 0, i32 (\d+)', s_)
+        if m: fieldptr[m.group(1)] = int(m.group(3)); continue
+        m = re.match(r'(%[-a-zA-Z$._0-9]+) = getelementptr inbounds [^,]+, [^,]+\* (%[-a-zA-Z$._0-9]+),', s_)
+        if m and m.group(2) in fieldptr: fieldptr[m.group(1)] = fieldptr[m.group(2)]; continue      # nested field (pt.x, pt.y)
+        m = re.match(r'(%[-a-zA-Z$._0-9]+) = bitcast (\S+) (%[-a-zA-Z$._0-9]+) to ', s_)
+        if m and m.group(3) in fieldptr: fieldptr[m.group(1)] = fieldptr[m.group(3)]; continue
+        if m and m.group(2) == '%"' + st + '"*': structptr.add(m.group(1)); continue
+        m = re.match(r'store .*, \S+ (%[-a-zA-Z$._0-9]+)(,|$)', s_)
+        if m and m.group(1) in fieldptr: writers.setdefault(cur, set()).add('store to field %d' % fieldptr[m.group(1)]); continue
+        if re.match(r'store ' + tyre + r' ', s_): writers.setdefault(cur, set()).add('whole-struct store'); continue
+        m = re.match(r'(?:%\S+ = )?(?:tail )?call .*@(llvm\.mem(?:cpy|move|set)[^(]*)\(i8\* (?:align \d+ )?(%[-a-zA-Z$._0-9]+)', s_)
+        if m and (m.group(2) in fieldptr or m.group(2) in structptr): writers.setdefault(cur, set()).add(m.group(1).split('.')[1] + ' into the struct'); continue
+        if ' call ' in (' ' + s_) or s_.startswith('invoke '):
+            for a in re.findall(r'(%[-a-zA-Z$._0-9]+)(?=[,)])', s_):
+                if a in fieldptr and fieldptr[a] != 0: writers.setdefault(cur, set()).add('address of field %d passed to a call' % fieldptr[a])
+    dm = demangle_map(list(writers))
+    report = []; bad = []
+    for f, w in sorted(writers.items()):
+        name = dm.get(f, f)
+        allowed = any(name.startswith(p) for p in o.allow_writers)
+        e = dict(function=name, writes=sorted(w), allowed=allowed)
+        report.append(e)
+        if not allowed: bad.append(e)
+    rec = dict(name=o.name, harness=o.fn, tu=o.tu, defs=list(o.defs), bound=o.bound, desc=o.desc, unwind=0, replaced={}, lifted=[], runs=[],
+               witness=dict(backend='irscan', seconds=0, verdict='n/a', reached=len(report) > 0), witness_replay=None,
+               verdict='SUCCESS' if not bad else 'FAILURE', nprops=len(report), solver_s=0, seconds=0.0, backend='irscan', symex_steps=0, vccs=len(report),
+               scan=report)
+    if bad:
+        os.makedirs(REPLAYDIR, exist_ok=True)
+        path = os.path.join(REPLAYDIR, '%s-%s.writers.json' % (o.name.split('.')[0], re.sub(r'\W', '_', o.name)))
+        json.dump(bad, open(path, 'w'), indent=1)
+        rec['scan_violation'] = dict(replay=path, desc=('%s written outside its builders: ' % st + '; '.join('%s (%s)' % (b['function'][:90], ', '.join(b['writes'])) for b in bad))[:400])
+    rec['_info'] = info
+    return rec
+
 def run_obligation(o, tier, outdir):
     """runs property + witness queries; returns result record"""
+    if o.kind == 'irscan' and o.scan_struct:
+        return run_structscan(o, tier, outdir)
     if o.kind == 'irscan':
         return run_irscan(o, tier, outdir)
     info = build_variant(o)
